@@ -302,6 +302,39 @@ func genCases(seed uint64, n int) []Case {
 		}
 	}
 
+	// Every error code 0..255 (the property quantifies over all of them) on
+	// each reply kind that carries an error, with messages that differ from
+	// any text the in-tree server would send.
+	errKinds := []schemaT{}
+	for _, s := range schemas {
+		for _, k := range s.kinds {
+			if k == "err" {
+				errKinds = append(errKinds, s)
+			}
+		}
+	}
+	for code := 0; code < 256; code++ {
+		for j := 0; j < 2; j++ {
+			s := errKinds[(code+j)%len(errKinds)]
+			fs := genFields(r, s, false)
+			for i, k := range s.kinds {
+				if k == "err" {
+					msg := []Seg{{Hex: hex.EncodeToString([]byte(fmt.Sprintf("e%d", code)))}}
+					if j == 1 {
+						msg = genBytes(r, false)
+					}
+					fs[i] = Field{K: "err", I: strconv.Itoa(code), B: msg}
+					if code == 0 {
+						fs[i] = Field{K: "err", Nil: true}
+					}
+				}
+			}
+			body := encodeBody(s, fs)
+			add(Case{Stream: "err-codes", Op: "enc", Name: s.name, Fields: fs})
+			add(Case{Stream: "err-codes", Op: "dec", Name: s.name, Cap: 0, End: true, Input: segsOf(body)})
+		}
+	}
+
 	for len(cs) < n {
 		s := schemas[r.Intn(len(schemas))]
 		big := r.Intn(12) == 0
